@@ -1,0 +1,23 @@
+//go:build verif
+
+package ring
+
+import "slices"
+
+// VerifSpreadMinimizingTokensByInstance exposes, for verification builds only, the
+// per-instance token table a spread-minimizing generator computes internally for all
+// instance ids up to and including its own. Tokens of each instance are returned sorted.
+func VerifSpreadMinimizingTokensByInstance(t *SpreadMinimizingTokenGenerator) (map[int]Tokens, error) {
+	m, err := t.generateTokensByInstanceID()
+	if err != nil {
+		return nil, err
+	}
+	out := make(map[int]Tokens, len(m))
+	for id, tokens := range m {
+		c := make(Tokens, len(tokens))
+		copy(c, tokens)
+		slices.Sort(c)
+		out[id] = c
+	}
+	return out, nil
+}
